@@ -164,7 +164,7 @@ def _eigvec_fields(kind, m):
     return None
 
 
-def _compare_fields(kind, stacked, alone, idx, loosen=1.0):
+def _compare_fields(kind, stacked, alone, idx, loosen=1.0, atol=0.0):
     """compare every field of the stacked model at leading index `idx` with the stand-alone model"""
     fs = _dist_fields(kind, stacked)
     fa = _dist_fields(kind, alone)
@@ -177,7 +177,7 @@ def _compare_fields(kind, stacked, alone, idx, loosen=1.0):
             s = a[idx]
         except IndexError as e:
             return name, f'stacked field of shape {a.shape} cannot be indexed at {idx}: {e}'
-        ok, err = tu.close(s, b, rtol * loosen)
+        ok, err = tu.close(s, b, rtol * loosen, atol=atol if 'covariance' in name else 0.0)
         if not ok:
             return name, (f'stacked[{idx}] has shape {s.shape}, stand-alone {b.shape}' if s.shape != b.shape else
                           f'stacked[{idx}] differs from the stand-alone result by {err:.3g} relative (tolerance {rtol * loosen:g})')
@@ -203,7 +203,13 @@ def _cond_factor(kind, m):
             ev = np.asarray(m.covariance_eigenvalues, dtype=float)
             c = float(np.max(ev.max(-1) / np.maximum(ev.min(-1), 1e-300)))
         elif kind == 'gauss-full':
-            c = float(np.max(np.linalg.cond(np.asarray(m.covariance))))
+            # a class collapsing onto a point has a tiny variance next to the other classes' (for D = 1 its own condition
+            # number is 1): spread of the eigenvalues over ALL classes of the model
+            ev = np.linalg.eigvalsh(np.asarray(m.covariance, dtype=float))
+            c = float(np.max(ev) / max(float(np.min(ev)), 1e-300))
+        elif kind in ('gauss-diagonal', 'gauss-spherical'):
+            v = np.asarray(m.covariance, dtype=float)
+            c = float(np.max(v) / max(float(np.min(v)), 1e-300))
         elif kind == 'cgauss':
             c = float(np.max(np.linalg.cond(np.asarray(m.covariance))))
         elif kind == 'vmf':
@@ -422,6 +428,9 @@ def _rebuild(kind, stacked, idx, wca):
 
 
 def _compare_mixtures(kind, stacked, alone, idx, y_stack_pred, y_alone, wca, tol_scale):
+    # a Gaussian class collapsed onto duplicated frames has a covariance that IS rounding noise (1e-32 for data of size 1):
+    # covariances are compared with an absolute floor of 1e-24 times the squared data scale
+    cov_atol = 1e-24 * float(np.max(np.abs(y_alone)) ** 2) if kind.startswith('gmm-') else 0.0
     ws, ck, cs = _mix_parts(kind, stacked)
     wa, _, ca = _mix_parts(kind, alone)
     ws = np.asarray(ws)
@@ -436,7 +445,7 @@ def _compare_mixtures(kind, stacked, alone, idx, y_stack_pred, y_alone, wca, tol
         ok, err = tu.close(ws[bidx], wa, min(RTOL_EM * tol_scale, 1e-2))
         if not ok:
             return 'weight', f'mixture weight at {idx} differs from the stand-alone fit ({err:.3g} relative; {ws[bidx].shape} vs {wa.shape})'
-    bad = _compare_fields(ck, cs, ca, idx, loosen=min(100.0 * tol_scale, 1e5))
+    bad = _compare_fields(ck, cs, ca, idx, loosen=min(100.0 * tol_scale, 1e5), atol=cov_atol)
     if bad:
         return 'component-' + bad[0], bad[1]
     pa = alone.predict(y_alone)
@@ -465,6 +474,13 @@ def mixture_slices(kind, y, initialization, saliency, iterations, wca, opts=None
             alone[idx].predict(y[idx])
         except (AssertionError, np.linalg.LinAlgError, ValueError, FloatingPointError) as e:
             return Skip(f'slice alone raises {type(e).__name__} ({kind})')
+    if kind.startswith('gmm-'):
+        for idx, m in alone.items():
+            cov = np.asarray(m.gaussian.covariance, dtype=float)
+            smallest = float(np.min(np.linalg.eigvalsh(cov))) if kind == 'gmm-full' else float(np.min(cov))
+            if smallest <= 1e-20 * float(np.max(np.abs(y[idx])) ** 2):
+                # a class sitting on duplicated frames: its covariance and everything derived from it is rounding noise
+                return Skip('a Gaussian class collapsed onto identical frames (covariance = rounding noise)')
     try:
         stacked = _mix_fit(kind, trainer, y.copy(order='K'), initialization.copy(order='K'), saliency, iterations, wca, opts)
         pred = stacked.predict(y)
